@@ -1,11 +1,13 @@
 package main
 
 import (
+	"encoding/json"
 	"fmt"
 	"go/ast"
 	"go/parser"
 	"go/token"
 	"os"
+	"os/exec"
 	"path/filepath"
 	"runtime/debug"
 	"sort"
@@ -15,6 +17,7 @@ import (
 
 	"github.com/esimov/gogu"
 	"github.com/esimov/gogu/heap"
+	"verif/core"
 	"verif/enum"
 )
 
@@ -348,6 +351,7 @@ func c16(r *R) {
 		}
 	}
 	c16Variadic(r, maps)
+	c16Concurrent(r)
 	c16ReadOnly(r, calls, inputs)
 	c16ResultParts(r)
 	c16Inventory(r, calls, mcs)
@@ -650,5 +654,54 @@ func c16Inventory(r *R, scs []sliceCall, mcs []mapCall) {
 	r.Set("exported_helpers_with_slice_or_map_parameter_not_exercised", missing)
 	if len(missing) > 0 {
 		fmt.Fprintln(os.Stderr, "C16 note: helpers not in the tables:", missing)
+	}
+}
+
+// c16Concurrent runs the concurrent part of C16 (props/conc/c16conc.go, built against the full overlay
+// with the controlled runtime) and merges its findings and counts: every interleaving of two
+// concurrent helper calls must give each call the result it has when run alone.
+func c16Concurrent(r *R) {
+	bin := filepath.Join(core.OutRoot(), "bin", "conc_race")
+	if _, err := os.Stat(bin); err != nil {
+		fmt.Fprintln(os.Stderr, "C16: bin/conc_race is missing: the concurrent part cannot run")
+		os.Exit(2)
+	}
+	tsan, err := os.MkdirTemp("", "verif-c16-")
+	if err != nil {
+		os.Exit(2)
+	}
+	defer os.RemoveAll(tsan)
+	cmd := exec.Command(bin, "C16worker", "all")
+	cmd.Env = append(os.Environ(), "GOMAXPROCS=2", "VERIF_TSAN_DIR="+tsan, "GORACE=halt_on_error=0 exitcode=0 log_path="+tsan+"/tsan")
+	cmd.Stderr = os.Stderr
+	out, err := cmd.Output()
+	if err != nil {
+		fmt.Fprintln(os.Stderr, "C16: concurrent part failed:", err)
+		os.Exit(2)
+	}
+	for _, line := range strings.Split(string(out), "\n") {
+		switch {
+		case strings.HasPrefix(line, "F\t"):
+			var f struct {
+				Key, Detail     string
+				Witness, Replay any
+			}
+			if json.Unmarshal([]byte(line[2:]), &f) == nil {
+				r.Add(f.Key, f.Detail, f.Witness, f.Replay)
+			}
+		case strings.HasPrefix(line, "S\t"):
+			var st struct {
+				Scenarios, Execs, Steps, Incomplete int
+				Samples                           []string
+			}
+			if json.Unmarshal([]byte(line[2:]), &st) == nil {
+				r.Set("concurrent_helper_call_pairs", st.Scenarios)
+				r.Set("concurrent_schedules_explored", st.Execs)
+				r.Set("concurrent_pairs_not_exhaustive", st.Incomplete)
+				for _, sm := range st.Samples {
+					r.Sample(sm)
+				}
+			}
+		}
 	}
 }
